@@ -14,22 +14,41 @@ def spec_files(name):
 NUM = [0-9]+
 ADD = '+'
 MUL = '*'
+SEMI = ';'
 OP = '(' @push_mode(Inner)
 @mode Inner {
   CP = ')' @pop_mode
   INUM = [0-9]+
+  IOP = '[' @push_mode(Deep)
+}
+@mode Deep {
+  ICL = ']' @pop_mode
+  DNUM = [0-9]+
+}
+@mode Unused {
+  UTOK = 'u'
 }
 @frag ' '+ @discard
 
 @parser
-@start expr = expr '+' expr @left(1)
-            | expr '*' expr @left(2)
-            | OP INUM* CP
-            | NUM
+@start prog = stmt+
+stmt = timed ';'
+timed = boxed
+boxed = expr
+expr = expr '+' expr @left(1)
+     | expr '*' expr @left(2)
+     | OP INUM* inner? CP
+     | NUM
+inner = IOP DNUM ICL
 """
         go = """package calcpkg
 
-import "strings"
+import (
+	"bytes"
+	"strings"
+	"text/scanner"
+	"time"
+)
 
 type Token struct {
 	Ty  int
@@ -41,9 +60,14 @@ type calcParser struct {
 	sb strings.Builder
 }
 
+func (p *calcParser) on_prog(ss []*strings.Builder) int { return len(ss) }
+func (p *calcParser) on_stmt(t time.Duration, _ Token) *strings.Builder { return &p.sb }
+func (p *calcParser) on_timed(b *bytes.Buffer) time.Duration { return time.Duration(b.Len()) }
+func (p *calcParser) on_boxed(v int) *bytes.Buffer { return bytes.NewBufferString("x") }
 func (p *calcParser) on_expr__bin(l int, op Token, r int) int { return l + r }
-func (p *calcParser) on_expr__paren(o Token, xs []Token, c Token) int { return len(xs) }
+func (p *calcParser) on_expr__paren(o Token, xs []Token, in scanner.Position, c Token) int { return len(xs) }
 func (p *calcParser) on_expr__num(t Token) int { return 1 }
+func (p *calcParser) on_inner(_, _, _ Token) scanner.Position { return scanner.Position{} }
 """
         return {"g.lox": lox, "parser.go": go}
     if name == "s2":
